@@ -31,12 +31,15 @@ def step (s : St) (kind : String) (args impl : List String) : Option (St × Step
   match args with
   | ["add", t] => do
     let h ← hash? t
-    let dup := h ∈ s.m.ready ∨ h ∈ s.m.pending
+    -- inside Add's precondition? judged from the API-level ghost (added and neither served-and-forgotten nor ejected)
+    let dup := h ∈ s.mon.order ∨ h ∈ s.mon.out
     let mon := { s.mon with out := s.mon.out.filter (· ≠ h), gone := s.mon.gone.filter (· ≠ h), everAdded := h :: s.mon.everAdded, order := s.mon.order ++ [h] }
     pure ({ m := add s.m h, mon, wf := s.wf && !dup }, { obs := ["ok"], branch := if dup then "add.dup" else "add.fresh" })
   | ["next"] =>
     let (m', r) := next s.m
-    let obs := match r with | some h => ["some", hashTok h] | none => ["none"]
+    -- outside the documented precondition of Add (a duplicate Add happened) nothing is promised: the
+    -- implementation's answer is not compared any more, only counted as a branch
+    let obs := if !s.wf then impl else match r with | some h => ["some", hashTok h] | none => ["none"]
     -- predicates on the implementation's answer
     let pf : List String := if !s.wf then [] else match impl with
       | ["some", t] => match hash? t with
@@ -53,7 +56,7 @@ def step (s : St) (kind : String) (args impl : List String) : Option (St × Step
         | some h => { s.mon with out := h :: s.mon.out, order := s.mon.order.erase h }
         | none => s.mon
       | _ => s.mon
-    some ({ s with m := m', mon }, { obs, branch := if r.isSome then "next.some" else "next.none", propfails := pf })
+    some ({ s with m := m', mon }, { obs, branch := if !s.wf then "next.outside-precondition" else if r.isSome then "next.some" else "next.none", propfails := pf })
   | ["ready", t] => do
     let h ← hash? t
     let isP := h ∈ s.m.pending
@@ -87,15 +90,16 @@ structure St where
 
 def hashTok (h : Nat) : String := s!"h{h}"
 
-/-- run queue operations, rendering each call the way the recorder does -/
-def renderOps (q : KrakenModel.AnnounceQueue.State) (ops : List Op) : List String :=
-  (ops.foldl (fun (acc : KrakenModel.AnnounceQueue.State × List String) o =>
-    let tok := match o with
-      | .add h => s!"add:h{h}"
-      | .next => (match (KrakenModel.AnnounceQueue.next acc.1).2 with | some h => s!"next:h{h}" | none => "next:-")
-      | .ready h => s!"ready:h{h}"
-      | .eject h => s!"eject:h{h}"
-    (KrakenModel.AnnounceQueue.step acc.1 o, acc.2 ++ [tok])) (q, [])).2
+def insSorted (x : String) : List String → List String
+  | [] => [x]
+  | y :: ys => if x < y then x :: y :: ys else y :: insSorted x ys
+
+/-- the queue content, rendered like the harness renders its shadow of the real queue -/
+def qTok (q : KrakenModel.AnnounceQueue.State) : String :=
+  "q=" ++ listTok (q.ready.map hashTok) ++ "|" ++ listTok ((q.pending.map hashTok).foldl (fun acc x => insSorted x acc) [])
+
+def flTok (m : KrakenModel.SchedQueue.State) : String :=
+  "fl=" ++ String.join ((List.range ntor).map fun h => toString (m.inflight h))
 
 def stObs (s : St) : List String :=
   ((List.range ntor).map fun h => match s.m.ctrl h with
@@ -103,27 +107,52 @@ def stObs (s : St) : List String :=
     | none => s!"h{h}=-") ++
   ["sat=" ++ String.join ((List.range ntor).map fun h => boolTok (h ∈ s.sat))]
 
-def act (s : St) (a : Action) (first : List String) (br : String) (pf : List String := []) : Option (St × StepOut) :=
-  let calls := renderOps s.m.q (queueOps true s.m a)
-  some ({ s with m := KrakenModel.SchedQueue.step true s.m a },
-        { obs := first ++ ["calls=" ++ listTok calls], branch := br, propfails := pf })
+/-- the clause "ready again only after its in-flight announce finished", judged on the implementation's
+answer (`q=ready|pending`, `fl=` in-flight announce requests per torrent) -/
+def inflightMon (impl : List String) : List String :=
+  match kv? impl "q", kv? impl "fl" with
+  | some qt, some fl =>
+    let ready := list? ((qt.splitOn "|").headD "-")
+    (List.range ntor).filterMap fun h =>
+      if (fl.toList.getD h '0') ≠ '0' ∧ hashTok h ∈ ready then
+        some s!"side=impl key=ready-while-announce-in-flight {hashTok h} waits in the ready list while an announce request for it is in flight"
+      else none
+  | _, _ => []
+
+def act (s : St) (a : Action) (first : List String) (br : String) (impl : List String) : Option (St × StepOut) :=
+  let m' := KrakenModel.SchedQueue.step true s.m a
+  some ({ s with m := m' }, { obs := first ++ [qTok m'.q, flTok m'], branch := br, propfails := inflightMon impl })
 
 def step (s : St) (kind : String) (args impl : List String) : Option (St × StepOut) :=
   if kind = "st" then
     let ic := (List.range ntor).filter fun h => match kv? impl s!"h{h}" with | some v => v ≠ "-" | none => false
     some ({ s with implCtrl := ic }, { obs := stObs s, branch := "st" })
+  else if kind = "calls" then
+    -- evidence only (which calls the scheduler made on the queue); nothing is compared
+    let n := match args with | [t] => (list? t).length | _ => 0
+    some (s, { obs := [], branch := s!"calls.{min n 4}" })
   else if kind ≠ "op" then none else
   match args with
-  | ["adv", d] => do let _ ← d.toNat?; pure (s, { obs := ["calls=-"], branch := "adv" })
+  | ["adv", d] => do let _ ← d.toNat?; pure (s, { obs := [qTok s.m.q, flTok s.m], branch := "adv", propfails := inflightMon impl })
   | ["req", ht] => do
     let h ← C20.hash? ht
     let c := decide (h ∈ s.cached)
-    let br := if (s.m.ctrl h).isSome then "req.existing" else if h ∈ s.m.q.ready ∨ h ∈ s.m.q.pending then "req.add-while-queued" else if c then "req.add.cached" else "req.add"
-    act s (.request h c) [] br
+    let br := match s.m.ctrl h with
+      | some (_, comp) => if comp && !c then "req.evicted" else if comp then "req.complete" else "req.join"
+      | none => if c then "req.add.cached" else "req.add"
+    act s (.request h c) [] br impl
+  | ["inc", ht] => do
+    let h ← C20.hash? ht
+    if h ∈ s.sat then pure (s, { obs := ["rejected", qTok s.m.q, flTok s.m], branch := "inc.rejected", propfails := inflightMon impl })
+    else act s (.incoming h (decide (h ∈ s.cached))) ["active"] (if (s.m.ctrl h).isSome then "inc.existing" else "inc.add") impl
+  | ["evict", ht] => do
+    let h ← C20.hash? ht
+    let r := if h ∈ s.cached then "evicted" else "none"
+    pure ({ s with cached := s.cached.filter (· ≠ h) }, { obs := [r, qTok s.m.q, flTok s.m], branch := "evict." ++ r, propfails := inflightMon impl })
   | ["finish", ht] => do
     let h ← C20.hash? ht
     let r := match s.m.ctrl h with | some (_, false) => "ok" | some (_, true) => "dup" | none => "absent"
-    act { s with cached := if r = "ok" then h :: s.cached else s.cached } (.finish h) [r] ("finish." ++ r)
+    act { s with cached := if r = "ok" then h :: s.cached else s.cached } (.finish h) [r] ("finish." ++ r) impl
   | ["notice", ht, gt] => do
     let h ← C20.hash? ht
     let g ← (match gt.toList with | 'g' :: ds => (String.ofList ds).toNat? | _ => none)
@@ -131,44 +160,41 @@ def step (s : St) (kind : String) (args impl : List String) : Option (St × Step
     let br := if r = "none" then "notice.none" else match s.m.ctrl h with
       | some (g', _) => if g' = g then "notice.own" else "notice.stale"
       | none => "notice.orphan"
-    act s (.notice h g) [r] br
+    act s (.notice h g) [r] br impl
   | ["rm", ht] => do
     let h ← C20.hash? ht
     let br := match s.m.ctrl h with
       | some (_, c) => (if c then "rm.complete" else "rm.incomplete") ++ (if h ∈ s.m.q.ready ∨ h ∈ s.m.q.pending then ".queued" else "")
       | none => "rm.absent"
-    act { s with cached := s.cached.filter (· ≠ h) } (.remove h) [] br
+    act { s with cached := s.cached.filter (· ≠ h) } (.remove h) [] br impl
   | ["tick"] =>
     let chosen := match kv? impl "dropped" with | some t => (list? t).filterMap C20.hash? | none => []
     let adm := chosen.filter fun h => (s.m.ctrl h).isSome
-    -- the Go map is iterated in an arbitrary order: follow the order of the implementation's Eject calls
-    let ejected := match kv? impl "calls" with
-      | some t => (list? t).filterMap (fun (c : String) => match c.splitOn ":" with | ["eject", ht] => C20.hash? ht | _ => none)
-      | none => []
-    let order := (ejected.filter (· ∈ adm)).eraseDups ++ adm.filter (· ∉ ejected)
-    let (m', calls) := order.foldl (fun (acc : KrakenModel.SchedQueue.State × List String) h =>
-      (KrakenModel.SchedQueue.step true acc.1 (.remove h), acc.2 ++ renderOps acc.1.q (queueOps true acc.1 (.remove h)))) (s.m, [])
-    some ({ s with m := m' }, { obs := ["dropped=" ++ listTok (adm.map hashTok), "calls=" ++ listTok calls],
-                                branch := if adm.isEmpty then "tick.none" else "tick.drop" })
+    let m' := adm.foldl (fun m h => KrakenModel.SchedQueue.step true m (.remove h)) s.m
+    some ({ s with m := m' }, { obs := ["dropped=" ++ listTok (adm.map hashTok), qTok m'.q, flTok m'],
+                                branch := if adm.isEmpty then "tick.none" else "tick.drop", propfails := inflightMon impl })
   | ["sat", ht] => do
     let h ← C20.hash? ht
-    pure ({ s with sat := if h ∈ s.sat then s.sat else h :: s.sat }, { obs := ["calls=-"], branch := "sat" })
+    pure ({ s with sat := if h ∈ s.sat then s.sat else h :: s.sat }, { obs := [qTok s.m.q, flTok s.m], branch := "sat", propfails := inflightMon impl })
   | ["unsat", ht] => do
     let h ← C20.hash? ht
-    pure ({ s with sat := s.sat.filter (· ≠ h) }, { obs := ["calls=-"], branch := "unsat" })
+    pure ({ s with sat := s.sat.filter (· ≠ h) }, { obs := [qTok s.m.q, flTok s.m], branch := "unsat", propfails := inflightMon impl })
   | ["atick"] =>
     let ops := queueOps true s.m (.announceTick s.sat)
     let nskip := (ops.filter fun o => match o with | .ready _ => true | _ => false).length
-    let nnext := (ops.filter fun o => o = .next).length
-    act s (.announceTick s.sat) [] s!"atick.next{min nnext 3}.skip{min nskip 2}"
+    let ann := (KrakenModel.SchedQueue.step true s.m (.announceTick s.sat)).inflight ≠ s.m.inflight
+    let _ := ann
+    act s (.announceTick s.sat) [] s!"atick.skip{min nskip 2}" impl
   | ["ares", ht] => do
     let h ← C20.hash? ht
-    act s (.announceResult h) [] (if (s.m.ctrl h).isSome then (if h ∈ s.m.q.pending then "ares.requeue" else "ares.noop") else "ares.unknown")
+    let r := if s.m.inflight h = 0 then "none" else "answered"
+    act s (.announceResult h) [r] (if r = "none" then "ares.none" else if (s.m.ctrl h).isSome then (if h ∈ s.m.q.pending then "ares.requeue" else "ares.noop") else "ares.unknown") impl
   | ["aerr", ht] => do
     let h ← C20.hash? ht
-    act s (.announceErr h) [] (if h ∈ s.m.q.pending then "aerr.requeue" else "aerr.noop")
+    let r := if s.m.inflight h = 0 then "none" else "answered"
+    act s (.announceErr h) [r] (if r = "none" then "aerr.none" else if h ∈ s.m.q.pending then "aerr.requeue" else "aerr.noop") impl
   | ["drain"] =>
-    -- the harness Ready()s every torrent and drains the queue; the implementation's answer is checked
+    -- the harness Ready()s every torrent and drains the real queue; the implementation's answer is checked
     let q := (List.range ntor).foldl (fun q h => KrakenModel.AnnounceQueue.ready q h) s.m.q
     let implOrder := match kv? impl "order" with | some t => (list? t).filterMap C20.hash? | none => []
     let dup := implOrder.filter fun h => implOrder.count h > 1
